@@ -619,6 +619,31 @@ Proof.
   apply (Hgen rounds (repeat [] n) []); auto. intros x Hx. now apply repeat_spec in Hx.
 Qed.
 
+(* ... so position r*n+p of every walker's list is the kernel that walker p contributed in round r, and there are no
+   other positions: every kernel of every walker of every round is held exactly once, by everybody *)
+Lemma concat_nth_uniform : forall {K : Type} (n : nat) (rounds : list (list K)),
+  Forall (fun c => length c = n) rounds ->
+  length (concat rounds) = (length rounds * n)%nat /\
+  forall r p c, nth_error rounds r = Some c -> (p < n)%nat -> nth_error (concat rounds) (r * n + p) = nth_error c p.
+Proof.
+  intros K n rounds H. induction H as [|c0 tl Hc Htl IH].
+  - split; [reflexivity|]. intros [|r] p c E; discriminate.
+  - destruct IH as [IHl IHn]. split.
+    + cbn [concat length]. rewrite app_length, IHl, Hc. reflexivity.
+    + intros [|r] p c E Hp; cbn [nth_error] in E.
+      * injection E as <-. cbn [concat]. change (0 * n + p)%nat with p. apply nth_error_app1. now rewrite Hc.
+      * cbn [concat]. rewrite nth_error_app2 by (rewrite Hc; cbn; lia).
+        rewrite Hc. replace (S r * n + p - n)%nat with (r * n + p)%nat by (cbn; lia). now apply IHn.
+Qed.
+
+Lemma opes_every_kernel_once : forall {K : Type} (rounds : list (list K)) (n k : nat) (l : list K),
+  Forall (fun c => length c = n) rounds -> nth_error (opes_run rounds n) k = Some l ->
+  length l = (length rounds * n)%nat /\
+  forall r p c, nth_error rounds r = Some c -> (p < n)%nat -> nth_error l (r * n + p) = nth_error c p.
+Proof.
+  intros K rounds n k l HF Hk. rewrite (opes_same_list rounds n k l Hk). now apply concat_nth_uniform.
+Qed.
+
 (* the running sum of weights of every walker = its initial value plus every contribution of every walker of
    every round, each exactly once *)
 Lemma opes_sums_total : forall (A : Type) (G : GrpOps A), GrpLaws G ->
